@@ -71,6 +71,46 @@ def findRegexpShortcut (parts : List Bytes) (tree : Option Re) : Bytes :=
 def litsCovered (t c : Re) : Bool :=
   t.requiredLits.all fun l => c.requiredLits.any fun l' => hasSub l' l
 
+/-- Literal information about an expression: every match consumes a text `w` whose lower-casing starts
+    with `pre`, ends with `suf`, contains every `inner` as a factor and, if `exact`, equals `pre`. -/
+structure LitInfo where
+  exact : Bool
+  pre : Bytes
+  suf : Bytes
+  inner : List Bytes
+  deriving Repr, DecidableEq
+
+namespace Re
+
+/-- Like `requiredLits`, but adjacent literal pieces are merged across concatenations, zero-width
+    assertions, captures and the first/last iteration of `+` / `{m,}` (`m ≥ 1`):
+    `foojs+` requires `foojs`, `banner{2,}` requires `banner`. -/
+def litInfo : Re → LitInfo
+  | .lit bs _ => ⟨true, toLower bs, toLower bs, []⟩
+  | .empty | .bol | .eol | .wordB | .nwordB => ⟨true, [], [], []⟩
+  | .grp a => litInfo a
+  | .cat a b =>
+    let ia := litInfo a
+    let ib := litInfo b
+    ⟨ia.exact && ib.exact,
+     if ia.exact then ia.pre ++ ib.pre else ia.pre,
+     if ib.exact then ia.suf ++ ib.suf else ib.suf,
+     if ia.exact || ib.exact then ia.inner ++ ib.inner else ia.inner ++ (ia.suf ++ ib.pre) :: ib.inner⟩
+  | .plus a => let ia := litInfo a; ⟨false, ia.pre, ia.suf, ia.inner⟩
+  | .rep a m _ => if m > 0 then (let ia := litInfo a; ⟨false, ia.pre, ia.suf, ia.inner⟩) else ⟨false, [], [], []⟩
+  | _ => ⟨false, [], [], []⟩
+
+/-- The merged required literals. -/
+def requiredRuns (r : Re) : List Bytes :=
+  let i := litInfo r
+  i.pre :: i.suf :: i.inner
+
+end Re
+
+/-- `shortcutJustified` against the merged runs (more shortcuts are recognised as sound). -/
+def shortcutJustifiedRuns (shortcut : Bytes) (tree : Re) : Bool :=
+  shortcut.isEmpty || tree.requiredRuns.any fun l => hasSub l shortcut
+
 /-- What the shortcut test of `Match` needs from a regex rule's shortcut (checked by the `c05.shortcut`
     op on Go's own parse tree): empty, or contained in a required literal. -/
 def shortcutJustified (shortcut : Bytes) (tree : Re) : Bool :=
